@@ -176,6 +176,36 @@ def job(j):
                 "default": pycaption.base.DEFAULT_LANGUAGE_CODE}
     if op == "default":
         return {"default": pycaption.base.DEFAULT_LANGUAGE_CODE}
+    if op == "find_lang":
+        # SAMIParser._find_lang and handle_starttag called directly on a parser holding the given stylesheet dict
+        from pycaption.sami import SAMIParser
+        parser = SAMIParser()
+        parser.styles = {k: dict(v) for k, v in j["styles"]}
+        found, tags = [], []
+        for attrs in j["ps"]:
+            found.append(parser._find_lang([tuple(a) for a in attrs]))
+        for attrs in j["ps"]:
+            before = len(parser.sami)
+            parser.handle_starttag("p", [tuple(a) for a in attrs])
+            m = re.search(r' lang="([^"]*)">$', parser.sami[before:])
+            tags.append(m.group(1) if m else None)
+        return {"found": found, "tags": tags, "langs": list(parser.langs)}
+    if op == "css_parse":
+        from pycaption.sami import SAMIParser
+        d = SAMIParser()._css_parse(j["css"])
+        return {"styles": [[k, v.get("lang")] for k, v in d.items()]}
+    if op == "merge":
+        d = {}
+        for lang, cues in j["cs"]:
+            d[lang] = CaptionList([Caption(s, e, [CaptionNode.create_break() if n is None else CaptionNode.create_text(n)
+                                                  for n in nodes]) for s, e, nodes in cues])
+        out = pycaption.base.merge_concurrent_captions(CaptionSet(d))
+        res = []
+        for lang in out.get_languages():
+            res.append([lang, [[c.start, c.end, [n.content if n.type_ == CaptionNode.TEXT else
+                                                  (None if n.type_ == CaptionNode.BREAK else "?style") for n in c.nodes]]
+                               for c in out.get_captions(lang)]])
+        return {"merged": res}
     raise ValueError(op)
 
 
